@@ -26,10 +26,10 @@ PROFILE = {'n_rps': 3, 'setup_ops': 14,
 def run(chk):
     if not getattr(chk, 'no_lean', False):
         chk.lean_stage(META['lean_module'], exe=True)
-    n = 160 if chk.tier == 'quick' else 4000
-    conc.run_races(chk, ['C05'], n, 200 if chk.tier == 'quick' else 3000, PROFILE)
+    n = 160 if chk.tier == 'quick' else 1500
+    conc.run_races(chk, ['C05'], n, 200 if chk.tier == 'quick' else 1000, PROFILE)
     chk.cov['rule'] = ('start states built through the API (<=3 providers); 2 (10%: 3) requests drawn from all provider-writing operations '
                        'aimed at one provider with current or stale generations; every canonical interleaving of their database '
                        'transactions is executed on the real application (cap per case in schedules_cap) and by the Lean model; '
                        'distinct = kinds of races')
-    chk.cov['schedules_cap'] = 300 if chk.tier == 'quick' else 3000
+    chk.cov['schedules_cap'] = 200 if chk.tier == 'quick' else 1000
